@@ -57,7 +57,7 @@ func (e *blockedHostEngine) isBlocked(req *dns.Msg) (blocked bool) {
 func (e *blockedHostEngine) init() (eng *urlfilter.DNSEngine) {
 	b := &strings.Builder{}
 	for _, h := range e.rules {
-		stringutil.WriteToBuilder(b, strings.ToLower(h), "\n")
+		stringutil.WriteToBuilder(b, lowerRule(h), "\n")
 	}
 
 	lists := []filterlist.RuleList{
@@ -75,4 +75,27 @@ func (e *blockedHostEngine) init() (eng *urlfilter.DNSEngine) {
 	}
 
 	return urlfilter.NewDNSEngine(rulesStrg)
+}
+
+// lowerRule returns the text of an access rule in lower case, apart from the
+// pattern of a regular-expression rule.  Hostnames are matched in lower case,
+// so the rules are lower-cased as well, but lower-casing a regular expression
+// changes the meaning of its escape sequences: \D, \S, \W, and \B would become
+// \d, \s, \w, and \b.  The engine matches regular expressions
+// case-insensitively anyway.
+func lowerRule(text string) (lowered string) {
+	text = strings.TrimSpace(text)
+	pattern := strings.TrimPrefix(text, "@@")
+	if !strings.HasPrefix(pattern, "/") {
+		return strings.ToLower(text)
+	}
+
+	start := len(text) - len(pattern)
+	end := strings.LastIndexByte(text, '/')
+	if end == start {
+		// Not a regular expression.
+		return strings.ToLower(text)
+	}
+
+	return text[:end+1] + strings.ToLower(text[end+1:])
 }
